@@ -154,6 +154,57 @@ theorem routing_facts :
        ("consensus/cometbft/apps/staking/state/gas.go", "AuthenticateAndPayFees", "account.General.Nonce++")] := by
   decide
 
+/-- Who writes staking account records, as it stands in the current source (the sequencing theorems let
+handlers change balances arbitrarily but assume they never lower a nonce; `Op.setBalance`).
+* The account key space is written by exactly one function, `MutableState.SetAccount` (an insert); **no
+  function removes an account record** (a removed account reads back as the empty account, nonce 0).
+* Every `SetAccount` call site is listed with the provenance of the account value it stores. All handler
+  and block-level sites are read-modify-write: the stored value was obtained by `…Account(ctx, a)` for the
+  *same* address expression `a` (or is an alias of such a value taken when the two addresses are equal:
+  `escrow = delegator`, `to = from`, `from = to`; or comes from the stake accumulator cache, which loads by
+  the same address), and by `routing_facts` no code assigns `General.Nonce` or replaces `General` except
+  the two `Nonce++`. The only sites that store a value not read from the state are `initLedger` (genesis,
+  InitChain only), the interop test fixture, and the debug-only `dummy` upgrade migration (writes a fresh
+  account record for its test entity).
+A new writer, a removal, or a changed provenance breaks this theorem and has to be justified here. -/
+theorem account_writer_facts :
+    Generated.SigContexts.accountKeyWrites =
+      [("consensus/cometbft/apps/staking/state/state.go", "SetAccount", "Insert")] ∧
+    Generated.SigContexts.accountWriters = [
+      ("consensus/cometbft/apps/staking/auth.go", "PostExecuteTx", "addr", "account", "state.Account(ctx, addr)"),
+      ("consensus/cometbft/apps/staking/fees.go", "disburseFeesP", "proposerAddr", "proposerAcct", "stakeState.Account(ctx, proposerAddr)"),
+      ("consensus/cometbft/apps/staking/fees.go", "disburseFeesVQ", "proposerAddr", "proposerAcct", "stakeState.Account(ctx, proposerAddr)"),
+      ("consensus/cometbft/apps/staking/fees.go", "disburseFeesVQ", "voterAddr", "voterAcct", "stakeState.Account(ctx, voterAddr)"),
+      ("consensus/cometbft/apps/staking/genesis.go", "initLedger", "addr", "acct", "range st.Ledger"),
+      ("consensus/cometbft/apps/staking/messages.go", "changeParameters", "addr", "acc", "var *staking.Account | state.Account(ctx, addr)"),
+      ("consensus/cometbft/apps/staking/staking.go", "onEpochChange", "e.DelegatorAddr", "delegator", "state.Account(ctx, e.DelegatorAddr)"),
+      ("consensus/cometbft/apps/staking/staking.go", "onEpochChange", "e.EscrowAddr", "escrow", "var *staking.Account | delegator | state.Account(ctx, e.EscrowAddr)"),
+      ("consensus/cometbft/apps/staking/state/accumulator.go", "Commit", "addr", "acct", "range c.accounts"),
+      ("consensus/cometbft/apps/staking/state/gas.go", "AuthenticateAndPayFees", "addr", "account", "state.Account(ctx, addr)"),
+      ("consensus/cometbft/apps/staking/state/interop/interop.go", "InitializeTestStakingState", "acc.address", "acc.account", "expr:acc.account"),
+      ("consensus/cometbft/apps/staking/state/state.go", "AddRewardSingleAttenuated", "address", "acct", "s.Account(ctx, address)"),
+      ("consensus/cometbft/apps/staking/state/state.go", "AddRewards", "addr", "ent", "var *staking.Account | s.Account(ctx, addr)"),
+      ("consensus/cometbft/apps/staking/state/state.go", "SetAccountHook", "addr", "acct", "s.Account(ctx, addr)"),
+      ("consensus/cometbft/apps/staking/state/state.go", "SlashEscrow", "fromAddr", "from", "s.Account(ctx, fromAddr)"),
+      ("consensus/cometbft/apps/staking/state/state.go", "TransferFromCommon", "toAddr", "to", "s.Account(ctx, toAddr)"),
+      ("consensus/cometbft/apps/staking/state/state.go", "TransferFromGovernanceDeposits", "toAddr", "to", "s.Account(ctx, toAddr)"),
+      ("consensus/cometbft/apps/staking/state/state.go", "TransferToGovernanceDeposits", "fromAddr", "from", "s.Account(ctx, fromAddr)"),
+      ("consensus/cometbft/apps/staking/state/state.go", "Transfer", "fromAddr", "from", "s.Account(ctx, fromAddr)"),
+      ("consensus/cometbft/apps/staking/state/state.go", "Transfer", "toAddr", "to", "s.Account(ctx, toAddr)"),
+      ("consensus/cometbft/apps/staking/transactions.go", "addEscrow", "escrow.Account", "to", "var *staking.Account | from | state.Account(ctx, escrow.Account)"),
+      ("consensus/cometbft/apps/staking/transactions.go", "addEscrow", "fromAddr", "from", "state.Account(ctx, fromAddr)"),
+      ("consensus/cometbft/apps/staking/transactions.go", "allow", "addr", "acct", "state.Account(ctx, addr)"),
+      ("consensus/cometbft/apps/staking/transactions.go", "amendCommissionSchedule", "fromAddr", "from", "state.Account(ctx, fromAddr)"),
+      ("consensus/cometbft/apps/staking/transactions.go", "burnImpl", "fromAddr", "from", "state.Account(ctx, fromAddr)"),
+      ("consensus/cometbft/apps/staking/transactions.go", "reclaimEscrow", "reclaim.Account", "from", "var *staking.Account | to | state.Account(ctx, reclaim.Account)"),
+      ("consensus/cometbft/apps/staking/transactions.go", "reclaimEscrow", "toAddr", "to", "state.Account(ctx, toAddr)"),
+      ("consensus/cometbft/apps/staking/transactions.go", "transferImpl", "fromAddr", "from", "state.Account(ctx, fromAddr)"),
+      ("consensus/cometbft/apps/staking/transactions.go", "transferImpl", "xfer.To", "to", "var *staking.Account | state.Account(ctx, xfer.To)"),
+      ("consensus/cometbft/apps/staking/transactions.go", "withdraw", "toAddr", "to", "state.Account(ctx, toAddr)"),
+      ("consensus/cometbft/apps/staking/transactions.go", "withdraw", "withdraw.From", "from", "state.Account(ctx, withdraw.From)"),
+      ("upgrade/migrations/dummy.go", "ConsensusUpgrade", "testEntityAddr", "&staking.Account{ Escrow: staking.EscrowAccount{ StakeAccumulator: st...", "expr:&staking.Account{ Escrow: staking.EscrowAccount{ StakeAccumulato...")] := by
+  decide
+
 /-! ### Ideal signatures
 
 `SignEvent` records one honest `ContextSign` call: key `pk` signed message `msg` under registration `c`
